@@ -146,7 +146,7 @@ META["C09"] = dict(
 META["C05"] = dict(
     design_ref="DESIGN.md section 5, C05",
     technique="Coq proofs: run-level labelled transition model (main goroutine of Run.Do, progress goroutine, writer-preferring RWMutex, environment events) whose invariant, deadlock-freedom and quiescence are established by exhaustive evaluation inside the kernel over the finite set of invariant states and lifted to all reachable states; pool-level progress and no-accept-after-stop from the pool invariants; machine-checked wedging schedule for the pinned Stop; correspondence by a mode x ending x body-pattern matrix of real runs judged by an extracted predicate, and a gate script on sources instrumented from the working tree plus a sync-op drift check",
-    text="Theorems C05_no_deadlock, C05_quiescent, C05_wait_bounded, C05_stop_points, C05_pool_progress: in every reachable run-level state Do has returned, or main waits for an environment event (ending, pool completion, completion timeout), or a goroutine can move - the nested read locks of the final rendering can never be cut by a late progress tick; at the return the progress goroutine has exited, holds no lock and has not run since; the wait for in-flight iterations ends with the timeout; once the pool is told to stop no request is accepted; with the context cancelled the pool never deadlocks (no lost wake-up). "
+    text="Theorems C05_no_deadlock, C05_quiescent, C05_wait_bounded, C05_stop_points, C05_pool_progress, C05_trigger_window (the window Run.run computes never lies beyond the earlier of max-duration less the 10 ms guard and the trigger's own duration; predicate window_ok on what real triggers find left on their context): in every reachable run-level state Do has returned, or main waits for an environment event (ending, pool completion, completion timeout), or a goroutine can move - the nested read locks of the final rendering can never be cut by a late progress tick; at the return the progress goroutine has exited, holds no lock and has not run since; the wait for in-flight iterations ends with the timeout; once the pool is told to stop no request is accepted; with the context cancelled the pool never deadlocks (no lost wake-up). "
          "Refuted/C05_pinned.v proves the pinned code wedges. Partial: termination is deadlock-freedom + environment obligations, not a ranking function; timer punctuality is the runtime's.",
     note="Trusted: Coq kernel (vm_compute for the finite enumerations); RWMutex/Cond/channel/timer semantics as modelled; the pool is abstracted at run level; real interleavings are sampled except for the scripted late-tick history; extraction + driver; harness; tools/instrument. Known finding (KNOWN_FINDINGS.txt): a users stage of a config file waits for its workers without bound.",
 )
